@@ -415,8 +415,8 @@ func checkC08Probe(c c08ReplayCase) *ev.Failure {
 	dir := c08SetupDir(scratch, 9999)
 	defer os.RemoveAll(dir)
 	// the replay text holds the directory of the original run: re-target it
-	text := c.Text
-	if i := strings.Index(text, "/canary-"); i >= 0 {
+	text := strings.ReplaceAll(c.Text, "@DIR@", dir)
+	if i := strings.Index(text, "/canary-"); i >= 0 && !strings.Contains(c.Text, "@DIR@") {
 		// find the directory prefix ending in canary-N
 		j := strings.LastIndexAny(text[:i], "\" ([")
 		k := i + len("/canary-")
